@@ -1,12 +1,14 @@
 // C01/C02 implementation driver: zix B-tree histories (compiled once per -DZIX_BTREE_PAGE_SIZE).
 //
 // case line:  <page> <flags> <op> <op> ...  (flags: '-', or letters: v = verbose, sequences printed in full
-//             instead of hashed; 2 = C02 case, only the spec side cares)
+//             instead of hashed; 2 = C02 case, only the spec side cares; a = allocation trace token "t:.." after every op;
+//             n = no spec line)
 //   i<key>.<tag>  insert a new element           r<key>  remove (reports out and next)
 //   f<key>        find                            c / C   clear with / without destroy callback
 //   w             walk begin..end                 O<bits> allocation script (1 = succeed), then all succeed
 //   b<key>        lower_bound, tree comparator    p<key>  lower_bound, wildcard comparator (key/16 equal)
 //   s<key>        lower_bound then walk to end    e       iter_equals matrix on sampled positions
+//   N<bits>       (first op only) allocation script in force during zix_btree_new
 //   cfg           (whole line "<page> cfg") probe LEAF_VALS / INODE_VALS / MAX_HEIGHT through the public API
 // output: one line "<observable tokens> || <structural tokens>", or CRASH if the case died.
 // Every case runs in a forked child (assert / sanitizer aborts must not take the run down).
@@ -42,6 +44,7 @@ typedef struct {
 
 // ---------------------------------------------------------------- sequences (hash or full list)
 static int verbose = 0;
+static int tracing = 0; // case flag 'a': allocation trace tokens in the structural part
 
 typedef struct {
   uint64_t h;
@@ -104,12 +107,71 @@ static void bprintf(Buf* b, const char* fmt, ...)
   }
 }
 
-// ---------------------------------------------------------------- allocator with a failure script
+// the case's output line: printed by the child only after its leak check, so that a case yields exactly one line
+static char* out_line;
+
+static void out_printf(const char* fmt, ...)
+{
+  va_list ap;
+  va_start(ap, fmt);
+  const int n = vsnprintf(NULL, 0, fmt, ap);
+  va_end(ap);
+  free(out_line);
+  out_line = (char*)malloc((size_t)n + 1);
+  va_start(ap, fmt);
+  vsnprintf(out_line, (size_t)n + 1, fmt, ap);
+  va_end(ap);
+}
+
+// ---------------------------------------------------------------- allocator with a failure script and a trace
+// Requests are numbered over the whole case (a refused request consumes a serial, as in harness/valloc.h); with case
+// flag 'a' every block obtained / released is recorded as "A<serial>:a:<size>" / "F<serial>:<entry>" where <entry> is
+// 'a' for the aligned_free entry and 'p' for the plain free entry (a release through the wrong entry shows as 'p').
+typedef struct {
+  void*  ptr;
+  size_t serial;
+} VBlock;
+
 typedef struct {
   ZixAllocator base;
   const char*  script; // '1' succeed, '0' fail; exhausted => succeed
   long         live;
+  size_t       requests;
+  int          tracing;
+  Buf          trace;
+  VBlock*      blocks;
+  size_t       n_blocks, cap_blocks;
 } VAlloc;
+
+static void va_note_alloc(VAlloc* va, void* p, size_t serial, size_t size)
+{
+  if (va->n_blocks == va->cap_blocks) {
+    va->cap_blocks = va->cap_blocks ? 2 * va->cap_blocks : 64;
+    va->blocks     = (VBlock*)realloc(va->blocks, va->cap_blocks * sizeof(VBlock));
+  }
+  va->blocks[va->n_blocks].ptr    = p;
+  va->blocks[va->n_blocks].serial = serial;
+  ++va->n_blocks;
+  if (va->tracing) {
+    bprintf(&va->trace, "%sA%zu:a:%zu", va->trace.len ? "," : "", serial, size);
+  }
+}
+
+static void va_note_free(VAlloc* va, void* p, char entry)
+{
+  for (size_t k = va->n_blocks; k > 0; --k) {
+    if (va->blocks[k - 1].ptr == p) {
+      if (va->tracing) {
+        bprintf(&va->trace, "%sF%zu:%c", va->trace.len ? "," : "", va->blocks[k - 1].serial, entry);
+      }
+      va->blocks[k - 1] = va->blocks[--va->n_blocks];
+      return;
+    }
+  }
+  if (va->tracing) {
+    bprintf(&va->trace, "%sF?:%c", va->trace.len ? "," : "", entry); // not one of ours
+  }
+}
 
 static void* va_malloc(ZixAllocator* a, size_t size)
 {
@@ -128,12 +190,15 @@ static void* va_realloc(ZixAllocator* a, void* p, size_t size)
 }
 static void va_free(ZixAllocator* a, void* p)
 {
-  (void)a;
+  if (p) {
+    va_note_free((VAlloc*)a, p, 'p');
+  }
   free(p);
 }
 static void* va_aligned_alloc(ZixAllocator* a, size_t alignment, size_t size)
 {
-  VAlloc* va = (VAlloc*)a;
+  VAlloc*      va     = (VAlloc*)a;
+  const size_t serial = va->requests++;
   if (va->script && *va->script) {
     const char c = *va->script++;
     if (c == '0') {
@@ -145,14 +210,28 @@ static void* va_aligned_alloc(ZixAllocator* a, size_t alignment, size_t size)
     return NULL;
   }
   ++va->live;
+  va_note_alloc(va, p, serial, size);
   return p;
 }
 static void va_aligned_free(ZixAllocator* a, void* p)
 {
   if (p) {
     --((VAlloc*)a)->live;
+    va_note_free((VAlloc*)a, p, 'a');
   }
   free(p);
+}
+
+// the events since the last call, as one structural token
+static void put_trace(VAlloc* va, Buf* sb)
+{
+  if (va->tracing) {
+    bprintf(sb, "t:%s ", va->trace.len ? va->trace.p : "-");
+    va->trace.len = 0;
+    if (va->trace.p) {
+      va->trace.p[0] = 0;
+    }
+  }
 }
 
 // ---------------------------------------------------------------- callbacks
@@ -280,7 +359,7 @@ static void put_destroyed(Buf* ob, Buf* sb, const char* what, size_t size)
   dlen = 0;
 }
 
-#define VALLOC_INIT {{va_malloc, va_calloc, va_realloc, va_free, va_aligned_alloc, va_aligned_free}, NULL, 0}
+#define VALLOC_INIT {{va_malloc, va_calloc, va_realloc, va_free, va_aligned_alloc, va_aligned_free}, NULL, 0, 0, 0, {0, 0, 0}, NULL, 0, 0}
 
 // ---------------------------------------------------------------- configuration probe
 static void run_cfg(void)
@@ -312,7 +391,7 @@ static void run_cfg(void)
       inode_max = it.indexes[0]; // child index in the root page = its number of values (rightmost path)
     }
   }
-  printf("cfg page=%u L=%u I=%u H=%u\n", (unsigned)ZIX_BTREE_PAGE_SIZE, leaf_max, inode_max,
+  out_printf("cfg page=%u L=%u I=%u H=%u\n", (unsigned)ZIX_BTREE_PAGE_SIZE, leaf_max, inode_max,
          (unsigned)ZIX_BTREE_MAX_HEIGHT);
   zix_btree_free(t, NULL, NULL);
   for (size_t i = 0; i < n; ++i) {
@@ -320,6 +399,8 @@ static void run_cfg(void)
   }
   free(all);
   free(cmplog.buf);
+  free(va.blocks);
+  free(va.trace.p);
 }
 
 // ---------------------------------------------------------------- one history
@@ -345,14 +426,28 @@ static void run_case(char** tok, int ntok)
   ud_bad = roles_bad = 0;
   dlen = 0;
 
-  ZixBTree* t = zix_btree_new(&va.base, tree_cmp, &tree_ud);
-  if (!t) {
-    printf("NO-TREE\n");
-    free(arena);
-    return;
+  va.tracing = tracing;
+  int first_op = 0;
+  if (ntok > 0 && tok[0][0] == 'N') { // allocation script in force during zix_btree_new
+    script    = strdup(tok[0] + 1);
+    va.script = script;
+    first_op  = 1;
   }
 
-  for (int k = 0; k < ntok; ++k) {
+  ZixBTree* t = zix_btree_new(&va.base, tree_cmp, &tree_ud);
+  if (!t) {
+    put_trace(&va, &sb);
+    out_printf("NO-TREE live=%ld || %s\n", va.live, sb.p ? sb.p : "");
+    free(arena);
+    free(script);
+    free(sb.p);
+    free(va.trace.p);
+    free(va.blocks);
+    return;
+  }
+  put_trace(&va, &sb);
+
+  for (int k = first_op; k < ntok; ++k) {
     const char* op = tok[k];
     seq_init(&cmplog);
     switch (op[0]) {
@@ -542,18 +637,20 @@ static void run_case(char** tok, int ntok)
       bprintf(&sb, "? ");
       break;
     }
+    put_trace(&va, &sb);
   }
 
   // zix_btree_free: destroy every remaining element once
   const size_t remaining = zix_btree_size(t);
   zix_btree_free(t, destroy_cb, &destroy_ud);
   put_destroyed(&ob, &sb, "F", remaining);
+  put_trace(&va, &sb);
   long still = 0;
   for (size_t j = 0; j < n_arena; ++j) {
     still += arena[j]->stored;
   }
   bprintf(&ob, "ud=%s roles=%s live=%ld stored=%ld", ud_bad ? "BAD" : "ok", roles_bad ? "BAD" : "ok", va.live, still);
-  printf("%s || %s\n", ob.p ? ob.p : "", sb.p ? sb.p : "");
+  out_printf("%s || %s\n", ob.p ? ob.p : "", sb.p ? sb.p : "");
 
   for (size_t j = 0; j < n_arena; ++j) {
     free(arena[j]);
@@ -562,6 +659,8 @@ static void run_case(char** tok, int ntok)
   free(script);
   free(ob.p);
   free(sb.p);
+  free(va.trace.p);
+  free(va.blocks);
   free(tags.buf);
   free(shape.buf);
   free(cmplog.buf);
@@ -586,18 +685,24 @@ int main(void)
       int       n = vsplit(line, tok, max);
       int       first = 1;
       if (n >= 1 && (unsigned)atoi(tok[0]) != (unsigned)ZIX_BTREE_PAGE_SIZE) {
-        printf("WRONG-PAGE-SIZE\n");
+        out_printf("WRONG-PAGE-SIZE\n");
       } else if (n == 2 && !strcmp(tok[1], "cfg")) {
         run_cfg();
       } else {
         verbose = (n >= 2 && strchr(tok[1], 'v')) ? 1 : 0;
+        tracing = (n >= 2 && strchr(tok[1], 'a')) ? 1 : 0;
         first = n >= 2 ? 2 : n; // tok[1] = flags ('-', 'v', '2', 'v2')
         run_case(tok + first, n - first);
       }
       free(tok);
       free(line);
+      if (LEAK_CHECK()) {
+        fputs("CRASH leak\n", stdout);
+      } else {
+        fputs(out_line ? out_line : "CRASH no-output\n", stdout);
+      }
       fflush(stdout);
-      _exit(LEAK_CHECK() ? 97 : 0); // _exit: do not rewind the shared stdin offset
+      _exit(0); // _exit: do not rewind the shared stdin offset
     }
     int status = 0;
     waitpid(pid, &status, 0);
